@@ -1,5 +1,6 @@
 (* C05 — Messages reach exactly the addressed sessions, once, with the true sender. *)
 From Coq Require Import List NArith Bool.
+From Verif Require Import proofs.Hub_wf proofs.Hub_routing_inv corr.Hub_preds proofs.Hub_refuted proofs.Hub_routing.
 From Verif Require Import model.Hub proofs.Hub_easy proofs.Hub_route.
 Import ListNotations.
 Open Scope N_scope.
@@ -43,9 +44,95 @@ Theorem C05_listener_filters : forall h x t m sender co tm,
   (co = true -> in_call h x t = false -> recv_event h x m sender co false tm = (h, [])) /\
   (sender <> x -> (co = true -> in_call h x t = true) -> recv_event h x m sender co false tm = send_session h x m).
 Proof. exact listener_filters. Qed.
-(* C05_route_refines_spec_partial: the composition of these steps over the whole listener list
-   (Permutation of deliveries with route_spec) is not proved; it is what P_C05 (corr/Hub_preds.v:
-   route_spec, step_C05) checks on every implementation trace. *)
+(* ---- the composition over the whole listener list (proofs/Hub_routing.v) ----
+   h: any state with WF h (Hub_wf.v), RI h (Hub_routing_inv.v) - both hold in every reachable state - and an
+   empty bus queue; o = op_of ctl c to tag is OMsg c to tag (ctl = false) or OCtl c to tag (ctl = true);
+   conn_sess h c sid s: connection c is attached to session sid = s. *)
+
+(* The outputs of the quiescent step are, in order, exactly the copies the reference routing of
+   corr/Hub_preds.v prescribes (route_spec; nothing when a control message is not allowed): one per
+   addressed session that has a connection, with the sender block of the session of c and the rewritten
+   recipient for a virtual target. *)
+Theorem C05_outputs_are_the_reference : forall ctl h c to tag sid s,
+  WF h -> RI h -> h_bus h = [] -> conn_sess h c sid s ->
+  snd (qstep h (op_of ctl c to tag)) =
+  outs_of (ref_copies (digest_of h) (kind_of ctl) (sd_of h (sid, s)) to tag
+                      (ref_targets (digest_of h) ctl (sd_of h (sid, s)) to)).
+Proof. exact msg_outputs. Qed.
+Theorem C05_no_session_no_message : forall ctl h c to tag,
+  WF h -> h_bus h = [] -> (forall sid s, ~ conn_sess h c sid s) ->
+  snd (qstep h (op_of ctl c to tag)) = [] \/ snd (qstep h (op_of ctl c to tag)) = [ToConn c (SError E_hello_expected)].
+Proof. exact msg_outputs_nosess. Qed.
+
+(* The model satisfies the predicate the harness evaluates on the implementation's traces. *)
+Theorem C05_step_predicate_holds : forall ctl h c to tag,
+  WF h -> RI h -> h_bus h = [] ->
+  step_C05 (digest_of h) (op_of ctl c to tag) (obs_of_outs (snd (qstep h (op_of ctl c to tag)))) = true.
+Proof. exact msg_step_C05. Qed.
+
+(* Never back to the sender: the only copy written to the sender's own connection is the one for a
+   virtual session whose internal client is the sender, recipient rewritten. *)
+Theorem C05_not_back_to_the_sender : forall ctl h c to tag sid s m,
+  WF h -> RI h -> h_bus h = [] -> conn_sess h c sid s ->
+  In (ToConn c m) (snd (qstep h (op_of ctl c to tag))) ->
+  exists n t v, to = RSession (IdPub n) /\ get_sess h n = Some t /\ s_kind t = KVirtual sid v /\
+                m = the_msg h (kind_of ctl) sid s to (Some (RcptVirtual v)) tag.
+Proof. exact msg_not_to_sender. Qed.
+(* Every copy goes to the connection of a (non-virtual) session of the sender's backend. *)
+Theorem C05_only_the_senders_backend : forall ctl h c to tag sid s c' m,
+  WF h -> RI h -> h_bus h = [] -> conn_sess h c sid s ->
+  In (ToConn c' m) (snd (qstep h (op_of ctl c to tag))) ->
+  exists r t, get_sess h r = Some t /\ s_conn t = Some c' /\ s_backend t = s_backend s /\ is_virtual (s_kind t) = false.
+Proof. exact msg_same_backend. Qed.
+
+(* Addressed sessions without a connection get the message appended to their queue (enqueue: one
+   chat-refresh notice is kept); nobody else's queue changes. *)
+Theorem C05_queued_for_the_disconnected : forall ctl h c to tag sid s y,
+  WF h -> RI h -> h_bus h = [] -> conn_sess h c sid s ->
+  pend (fst (qstep h (op_of ctl c to tag))) y =
+  match find (fun e => N.eqb (fst e) y) (ref_targets (digest_of h) ctl (sd_of h (sid, s)) to) with
+  | Some e => if disc h y then enqueue (pend h y) (the_msg h (kind_of ctl) sid s to (snd e) tag) else pend h y
+  | None => pend h y
+  end.
+Proof. exact msg_queues. Qed.
+
+(* Nothing but pending queues, the clock and the bus counters changes (erase_h blanks exactly those;
+   pq_tables spells the equation out table by table); the bus queue is empty again. *)
+Theorem C05_nothing_else_changes : forall ctl h c to tag,
+  WF h -> RI h -> h_bus h = [] ->
+  erase_h (fst (qstep h (op_of ctl c to tag))) = erase_h h /\
+  h_bus (fst (qstep h (op_of ctl c to tag))) = [] /\ h_clock h <= h_clock (fst (qstep h (op_of ctl c to tag))).
+Proof. exact msg_tables_unchanged. Qed.
+
+(* The invariant of the routing theorems holds in every reachable state. *)
+Theorem C05_invariant_every_history : forall limits gated ops, RI (qrun (init limits gated) ops).
+Proof. exact ri_reachable_q. Qed.
+
+(* Every history: the property, as the harness evaluates it (P_hub 5), finds nothing on the model's own
+   trace, provided the bus queue is empty whenever a message op starts (quiet). *)
+Theorem C05_every_history : forall limits gated ops,
+  quiet (init limits gated) ops -> P_hub 5 (model_case_g limits gated ops) = None.
+Proof. exact Hub_routing.C05_every_history. Qed.
+
+(* quiet is needed: drain has fuel 500, so the bus queue is not empty after every op ... *)
+Theorem C05_bus_empty_after_qstep_refuted : exists limits ops, h_bus (qrun (init limits false) ops) <> [].
+Proof. exact bus_empty_after_qstep_refuted. Qed.
+(* ... (it is empty exactly when 500 deliveries suffice) ... *)
+Theorem C05_bus_empty_when_drained : forall h o f,
+  (f <= 500)%nat -> h_bus (fst (drain f (fst (step h o)))) = [] -> h_bus (fst (qstep h o)) = [].
+Proof. exact qstep_bus_empty. Qed.
+(* ... and a message op that starts with a publication still queued is not routed as prescribed. *)
+Theorem C05_history_needs_empty_bus_refuted :
+  quietb (init [0] false) leftover_ops = false /\ P_hub 5 (model_case_g [0] false leftover_ops) = Some (7, 1).
+Proof. exact history_needs_empty_bus_refuted. Qed.
+
+(* The one copy that comes back on the sender's connection (by design: a virtual session's transport
+   is its internal client's connection). *)
+Example C05_message_to_own_virtual_session :
+  snd (qstep (qrun (init [0] false) (removelast own_virtual_ops)) (OMsg 1 (RSession (IdPub 3)) 42)) =
+    [ToConn 1 (SMsg 0 0 1 0 (Some (RcptVirtual 7)) 42)] /\
+  P_hub 5 (model_case_g [0] false own_virtual_ops) = None.
+Proof. exact message_to_own_virtual_session. Qed.
 
 Print Assumptions C05_message_to_session.
 Print Assumptions C05_never_back_to_the_sender.
@@ -54,3 +141,16 @@ Print Assumptions C05_own_user_gets_nothing.
 Print Assumptions C05_no_room_no_room_message.
 Print Assumptions C05_call_message_published.
 Print Assumptions C05_listener_filters.
+Print Assumptions C05_outputs_are_the_reference.
+Print Assumptions C05_no_session_no_message.
+Print Assumptions C05_step_predicate_holds.
+Print Assumptions C05_not_back_to_the_sender.
+Print Assumptions C05_only_the_senders_backend.
+Print Assumptions C05_queued_for_the_disconnected.
+Print Assumptions C05_nothing_else_changes.
+Print Assumptions C05_invariant_every_history.
+Print Assumptions C05_every_history.
+Print Assumptions C05_bus_empty_after_qstep_refuted.
+Print Assumptions C05_bus_empty_when_drained.
+Print Assumptions C05_history_needs_empty_bus_refuted.
+Print Assumptions C05_message_to_own_virtual_session.
